@@ -90,7 +90,7 @@ fn observed(c: &Config, which: usize, only: Option<(usize, usize, usize)>) -> Do
     let mut k = 0;
     for (ni, n) in NAMES.iter().enumerate() {
         for (ci, t) in contexts(leaf(n)).into_iter().enumerate() {
-            let positions: &[usize] = if which == 0 { &[0, 1, 3] } else { &[2] };
+            let positions: &[usize] = if which == 0 { &[0, 1, 3] } else { &[2, 4] };
             for pos in positions {
                 if let Some(o) = only {
                     if o != (ni, ci, *pos) {
@@ -103,6 +103,7 @@ fn observed(c: &Config, which: usize, only: Option<(usize, usize, usize)>) -> Do
                     0 => Member::Method(Method::new(t.clone(), &name, vec![])),
                     1 => Member::Method(Method::new(Ty::void(), &name, vec![Arg::new(Some("in"), t.clone(), Some("a"))])),
                     2 => Member::Field(Field::new(t.clone(), &name, None)),
+                    // 3: constant of the interface, 4: constant of the parcelable
                     _ => Member::Const(Const::new(t.clone(), &name, Value::Scalar(Scalar::Integer("1".into())))),
                 });
             }
@@ -241,7 +242,7 @@ pub fn run(tier: Tier, seed: u64) -> i32 {
         },
         check_case,
     );
-    stats.space(json!({"space": "packed", "configurations": cfgs.len(), "type_references_per_configuration": NAMES.len() * 5 * 4, "histories": ["Plain", "Replaced", "ExtraRemoved", "Reversed", "ExtraBroken"], "non_plain_history_stride": stride}));
+    stats.space(json!({"space": "packed", "configurations": cfgs.len(), "type_references_per_configuration": NAMES.len() * 5 * 5, "histories": ["Plain", "Replaced", "ExtraRemoved", "Reversed", "ExtraBroken"], "non_plain_history_stride": stride}));
     eprintln!("  packed done t={:.1}s", stats.elapsed());
     // unpacked: one type reference per file
     let ucfg: Vec<usize> = if tier == Tier::Quick {
@@ -249,7 +250,7 @@ pub fn run(tier: Tier, seed: u64) -> i32 {
     } else {
         (0..cfgs.len()).filter(|i| i % 20 == 7).collect()
     };
-    let per = NAMES.len() * 5 * 4;
+    let per = NAMES.len() * 5 * 5;
     super::drive(
         &stats,
         ucfg.len() * per,
@@ -257,8 +258,8 @@ pub fn run(tier: Tier, seed: u64) -> i32 {
         |i| {
             let c = &cfgs[ucfg[i / per]];
             let k = i % per;
-            let (ni, ci, pos) = (k / 20, (k / 4) % 5, k % 4);
-            let which = if pos == 2 { 1 } else { 0 };
+            let (ni, ci, pos) = (k / 25, (k / 5) % 5, k % 5);
+            let which = if pos == 2 || pos == 4 { 1 } else { 0 };
             let label = format!(
                 "unpacked name={} context={} position={} imports={:?} decls={:03b} a.b.Foo={}",
                 NAMES[ni],
@@ -277,7 +278,7 @@ pub fn run(tier: Tier, seed: u64) -> i32 {
     let all_seen = kinds.iter().all(|k| stats.outcome_count(&format!("resolution:{k}")) > 0);
     finish(
         &stats,
-        "every subset of <= 3 of 8 imports x every set of 3 forward declarations x project contexts (a.b.Foo as interface / parcelable / enum / absent, c.Foo and a.b.XFoo present / absent); the observed file holds each of 15 written names in each of 5 nesting contexts (depth 0-4) in each of 4 positions; the kind of every type node after validate() and the diagnostics on type-name spans are compared with the statement's resolution rule; the same projects are also reached through replace / add-remove / reverse histories; distinct_nontrivial counts distinct configurations",
+        "every subset of <= 3 of 8 imports x every set of 3 forward declarations x project contexts (a.b.Foo as interface / parcelable / enum / absent, c.Foo and a.b.XFoo present / absent); the observed file holds each of 15 written names in each of 5 nesting contexts (depth 0-4) in each of 5 positions (return, argument, field, interface constant, parcelable constant); the kind of every type node after validate() and the diagnostics on type-name spans are compared with the statement's resolution rule; the same projects are also reached through replace / add-remove / reverse histories; distinct_nontrivial counts distinct configurations",
         &[
             "reference resolution rule transcribed from the statement (model/sema.rs); names matched by several imports are left open (explored under C11)",
             "diagnostics are compared inside the name spans of user-type references only",
